@@ -397,6 +397,11 @@ func validateTraces(w string, tracePath string, shards int) (recs []map[string]i
 		file     string
 	}
 	var shs []shard
+	// at least `shards` pieces, and more when the trace is long: a piece of more than ~20 000 lines makes the validator's
+	// JVM spend its time collecting garbage (the whole piece is one TLA+ sequence of records)
+	if n := (len(all) + 19999) / 20000; n > shards {
+		shards = n
+	}
 	target := (len(all) + shards - 1) / shards
 	from := starts[0]
 	for k := 1; k <= len(starts); k++ {
@@ -427,7 +432,7 @@ func validateTraces(w string, tracePath string, shards int) (recs []map[string]i
 		go func(i int) {
 			defer wg.Done()
 			defer func() { <-sem }()
-			results[i], errs[i] = runTLC(dir, "Trace.tla", "Trace.cfg", 1, 3000, 30*time.Minute, []string{"VERIF_TRACE=" + shs[i].file})
+			results[i], errs[i] = runTLC(dir, "Trace.tla", "Trace.cfg", 1, 4000, 30*time.Minute, []string{"VERIF_TRACE=" + shs[i].file})
 		}(i)
 	}
 	wg.Wait()
